@@ -124,7 +124,15 @@ fn run_ro(case: &RoCase, rep: &mut Report) -> Vec<(String, String)> {
         if state >= 2 {
             // state 4: entries stamped by a host whose clock is a day ahead
             let old = if state == 4 { future } else { past };
-            let dirs: Vec<PathBuf> = if sharded {
+            let dirs: Vec<PathBuf> = if state == 5 {
+                // state 5: the directory holds the files of the *other* layout (it was used, or is shared, with the other
+                // kind of cache): a sharded level finds the key's name directly under its root, a plain level finds shards
+                if sharded {
+                    vec![root.clone()]
+                } else {
+                    vec![root.join(ops::shard_dir_name(1)), root.join(ops::shard_dir_name(2))]
+                }
+            } else if sharded {
                 if state == 3 {
                     vec![root.join(ops::shard_dir_name(0))]
                 } else {
@@ -198,7 +206,7 @@ fn ro_cases() -> Vec<RoCase> {
     }
     names.extend(["sub/file", "sub/../key", "../ro1/key", ".app", "key/", "a/../key"].iter().map(|s| s.to_string()));
     let mut level_sets: Vec<Vec<(bool, u8)>> = Vec::new();
-    let opts: Vec<(bool, u8)> = vec![(false, 0), (false, 1), (false, 2), (true, 0), (true, 1), (true, 2), (true, 3), (false, 4), (true, 4)];
+    let opts: Vec<(bool, u8)> = vec![(false, 0), (false, 1), (false, 2), (true, 0), (true, 1), (true, 2), (true, 3), (false, 4), (true, 4), (false, 5), (true, 5)];
     for a in &opts {
         level_sets.push(vec![*a]);
         for b in &opts {
@@ -365,7 +373,7 @@ pub fn run(_tier: Tier, shard: Shard, rep: &mut Report) {
     set_tier(_tier);
     rep.rule = "(i) every cell of the C13 matrix and of the C14 matrix with a checker that has at least one read-only level; \
         (ii) ReadOnlyCache alone with 1-3 levels, each plain or sharded and each root missing / empty / populated / populated \
-        without the key's shard directories, under get and touch (with and without checker) of present, absent, reserved, \
+        without the key's shard directories / holding the files of the other layout (the key's name directly under a sharded root, shard directories under a plain root), under get and touch (with and without checker) of present, absent, reserved, \
         NUL-containing and separator-containing names. Oracle: no mutating call (open for writing/creating, mkdir, rename, link, \
         unlink, chmod, truncate, write, mtime-setting utimens) targets a read-only root; recursive snapshots equal except atime \
         advancing on a found entry; missing roots stay missing. Non-trivial = a read-only level holds a copy / a degenerate root \
